@@ -237,7 +237,10 @@ PROPS["C02"] = {
                   "C02_trace_resolved_once, C02_monitored_trace (a log accepted by the monitor inherits the theorems), "
                   "C02_can_always_deliver / C02_retransmitted_until_acked (no reachable state is a trap: whatever faults and "
                   "interleavings came before, the continuation a well-behaved upstream allows confirms every chunk the client holds, "
-                  "oldest first). Tie: the "
+                  "oldest first); C02_healthy_future_confirms_everything / C02_healthy_future_exists (from every good state - between two "
+                  "sessions, or inside a session in which nothing has failed yet - and with an upstream that from then on behaves, EVERY run "
+                  "under every interleaving of sender and acknowledger is at most mu(s) steps long (6 per waiting chunk), stays good, and can "
+                  "only stop with leftovers, queue and session empty and every taken chunk confirmed; such a run exists). Tie: the "
                   "log of every run of the real client must be accepted by Client.monitor (it is a run of the transition system, "
                   "with the same confirmations, leftovers and taken chunks) and by Client.checkTrace; eight regenerated source "
                   "facts (acknowledger statement order, leftover sources, sort, lastChunk discipline, channel capacity, final "
@@ -245,9 +248,11 @@ PROPS["C02"] = {
     "level_note": "Trusted: Lean kernel + 3 standard axioms; the monitor correspondence samples schedules of the real goroutines "
                   "(the proof covers all interleavings of the model; the harness samples those of the code); the scripted "
                   "connection honours the contract 'Close makes pending operations return'. PARTIAL: the liveness sentence is proved "
-                  "as possibility from every reachable state (C02_can_always_deliver), not as inevitability under a fairness "
-                  "assumption on the real scheduler; the harness reports a client that fails to finish within 8 s of a stop request.",
-    "partial": "liveness clause proved as possibility (no trap state), not as inevitability under fairness; real scheduling sampled",
+                  "as possibility from every reachable state (C02_can_always_deliver) and, from good states, as bounded termination of every "
+                  "fault-free run in the all-confirmed state (C02_healthy_future_confirms_everything); that the real goroutines do take their "
+                  "steps (fairness of the Go scheduler) is assumed, and a session with a chunk stranded by an unknown-id ACK is covered by "
+                  "the possibility theorem only; the harness reports a client that fails to finish within 8 s of a stop request.",
+    "partial": "liveness: possibility from every state, bounded schedule-independent delivery from good states; scheduler fairness assumed; real scheduling sampled",
     "assumptions": ["ClosableClientConnection.Close unblocks pending SendChunk / ReadChunkAck",
                     "chunk ids in the queue are distinct and increasing (C11_ids_increasing)"],
 }
